@@ -2,3 +2,4 @@ import PyOak.Props.C06
 import PyOak.Props.C06Xpath
 import PyOak.Props.C06Total
 import PyOak.Props.C06Follow
+import PyOak.Props.C06Order
